@@ -201,7 +201,7 @@ def census():
     return {'threads': threads, 'children': sorted(kids), 'shm': shm}
 
 
-def leak_check(before, wait=5.0, ignore_thread=lambda name, daemon, cls: False):
+def leak_check(before, wait=5.0, ignore_thread=lambda name, daemon, cls: False, check_shm=False):
     """Poll until the census is back to `before` (threads/children/shm), up to `wait` s.
 
     Returns a dict of what is still extra (empty dict = clean).  The stdlib's daemon
@@ -223,7 +223,8 @@ def leak_check(before, wait=5.0, ignore_thread=lambda name, daemon, cls: False):
         # asyncio default executor threads and the like are daemon=True stdlib pool threads
         bpids = {p for p, _ in before['children']}
         ext_c = [c for c in now['children'] if c[0] not in bpids]
-        ext_s = [s for s in now['shm'] if s not in before['shm']]
+        # /dev/shm is machine-global (other runner processes create entries too): only compared on request
+        ext_s = [s for s in now['shm'] if s not in before['shm']] if check_shm else []
         extra = {}
         if ext_t:
             extra['threads'] = ext_t
